@@ -93,6 +93,7 @@ fn main() {
         "strip" => strip::strip_file(&args[2], &args[3]),
         "compile" => tools::compile_cmd(&args[2..]),
         "prepare-js" => tools::prepare_js(&args[2]),
+        "prepare-js-chunk" => tools::prepare_js_chunk(&args[2], args[3].parse().unwrap(), args[4].parse().unwrap()),
         _ => {
             println!("usage: sim check <C04|C10|C14> [--tier quick|thorough] | replay <file> | selftest | strip <in.ts> <out.js> | compile ...");
             2
